@@ -1152,6 +1152,12 @@ func createNewCredential(constraints *Constraints, src, limitedCred []byte,
 		explicitPaths       = make(map[string]bool)
 	)
 
+	if doBBS && gjson.GetBytes(limitedCred, "credentialSubject").IsObject() {
+		// the subject of the reveal document is explicit also when none of the requested paths exists in the
+		// credential (optional fields): otherwise framing keeps every member of the subject.
+		explicitPaths["credentialSubject"] = true
+	}
+
 	// array positions in the limited credential: one numbering for all fields (a second field asking for another
 	// element of the same array must not land on the first one's position).
 	positions := map[string]int{}
